@@ -411,3 +411,60 @@ def cfg_of(func) -> CFG:
         c = CFG(func.node)
         _cache[id(func.node)] = c
     return c
+
+
+def in_loop(n: CNode, header: Optional[CNode]) -> bool:
+    if header is None:
+        return True
+    l = n.loop
+    while l is not None:
+        if l is header:
+            return True
+        l = l.loop
+    return False
+
+
+def covered(cfg: CFG, p: CNode, dnodes) -> bool:
+    """True iff every normally-continuing path through p - within one iteration of p's innermost
+    loop, or within the function when p is in no loop - also passes through one of `dnodes`
+    that sits in the same innermost loop as p (same execution count as p)."""
+    D = {d.idx for d in dnodes if d.loop is p.loop}
+    if p.idx in D:
+        return True
+    header = p.loop
+    start = header if header is not None else cfg.entry
+
+    def is_end(x: CNode) -> bool:
+        if x is cfg.raise_exit:
+            return False
+        if header is None:
+            return x is cfg.exit
+        return x is header or not in_loop(x, header)
+
+    # pre: start -> p avoiding D
+    seen = set()
+    st = [t for t, lab in start.succ if header is None or (in_loop(t, header) and lab == 'T')]
+    pre = False
+    while st:
+        x = st.pop()
+        if x is p:
+            pre = True
+            break
+        if x.idx in seen or x.idx in D or not in_loop(x, header) or x is header:
+            continue
+        seen.add(x.idx)
+        st.extend(t for t, _ in x.succ)
+    if not pre:
+        return True
+    # post: p -> end avoiding D
+    seen = set()
+    st = [t for t, _ in p.succ]
+    while st:
+        x = st.pop()
+        if is_end(x):
+            return False
+        if x.idx in seen or x.idx in D or x is cfg.raise_exit:
+            continue
+        seen.add(x.idx)
+        st.extend(t for t, _ in x.succ)
+    return True
